@@ -201,6 +201,13 @@ def gen_spec(seed):
             c["ops"].append({"op": "ping", "at": round(rng.choice([0.0, 0.05, 0.3, 1.0, 2.0]) + rng.random() * 0.05, 4), "n": rng.choice([1, 1, 2, 4])})
         for _ in range(rng.choice([0, 0, 1, 2])):
             c["ops"].append({"op": "change_cid", "at": round(rng.random() * 2.0, 4)})
+        r2 = random.Random("c19-abandon/%s/%s" % (seed, len(spec["clients"])))
+        for _ in range(r2.choice([0, 0, 1, 2])):
+            # pings the application abandons after a short timeout (before, around and after the close instant)
+            at = r2.choice([r2.random() * 2.0, max(0.0, c["close_at"] + r2.choice([-0.3, -0.05, -0.001, 0.0, 0.02]))])
+            c["ops"].append({"op": "ping", "at": round(at, 4), "n": r2.choice([1, 2]), "timeout": r2.choice([0.0, 0.001, 0.01, 0.05, 0.2])})
+            if r2.random() < 0.5:
+                c["server_ops"].append({"op": "ping", "at": round(at, 4), "n": 1, "timeout": r2.choice([0.0, 0.001, 0.05])})
         if kind != "forged_error":
             # at most one key update per side: RFC 9001 6.1 forbids a second update before the first is acknowledged and
             # QuicConnection.request_key_update() does not enforce it (sans-IO core, not the adapter)
@@ -838,7 +845,18 @@ class Scenario:
         v = proto.vf
         kind = op["op"]
         if kind == "ping":
-            ws = [self.spawn(self.track("ping", proto, proto.ping)) for _ in range(op["n"])]
+            if op.get("timeout") is not None:
+                # an application that gives up on a ping (asyncio.wait_for cancels the awaiting coroutine): the adapter's
+                # bookkeeping for that ping must survive the cancellation (acknowledgement or termination arriving later)
+                async def abandoned(_t=op["timeout"]):
+                    try:
+                        await asyncio.wait_for(proto.ping(), _t)
+                    except asyncio.TimeoutError:
+                        self.count("pings_abandoned_by_timeout")
+
+                ws = [self.spawn(self.track("ping", proto, abandoned)) for _ in range(op["n"])]
+            else:
+                ws = [self.spawn(self.track("ping", proto, proto.ping)) for _ in range(op["n"])]
             await asyncio.wait(ws)
         elif kind == "change_cid":
             proto.change_connection_id()
